@@ -77,7 +77,8 @@ struct Model {
 			show(to.w == &wi ? "A>I" : "I>A", m);
 			sim::advance_ms(1000);
 			to.w->feed(m); to.harvest();
-			for (auto& x : to.w->take_out()) back.push_back(x);
+			for (auto& x : to.w->take_out()) { if (verbose) fprintf(stderr, "        %s writes %s\n", to.tag, vh::show(x).substr(0, 150).c_str()); back.push_back(x); }
+			if (verbose) fprintf(stderr, "        %s now: expects %u, next out %u, state %s%s\n", to.tag, to.w->ses->nr(), to.w->ses->ns(), Session::get_session_state_string((States::SessionStates)to.w->ses->st()).c_str(), to.w->ses->is_shutdown() ? " SHUTDOWN" : "");
 		};
 		auto bring_up = [&]() {
 			// acceptor side listens, initiator connects and sends its Logon; the handshake itself (Logon, Logon reply) is
